@@ -104,6 +104,8 @@ class Mon:
         ctx.cell(desc["op"], desc.get("form", "-"), expect)
         ctx.nontrivial(desc)
         case = dict(desc)
+        # an explicit list handed over together with a registry that has no list of its own: the list is what the caller allowed
+        pfx = f"with-listless-registry:{'jws' if 'name' in desc else 'jwe'}:" if desc.get("mode") == "list+registry" else ""
         # trace specification
         allowed = set(usable_names)
         for n in list(allowed):
@@ -114,7 +116,7 @@ class Mon:
                 nm = getattr(e[2]["self"], "name", None)
                 ctx.count("model_method_events")
                 if nm is not None and nm not in allowed:
-                    ctx.violation(f"trace:unallowed-model-entered:{e[1].split(':')[1]}", f"{e[1]} ran on model {nm!r} during a call whose usable set is "
+                    ctx.violation(f"{pfx}trace:unallowed-model-entered:{e[1].split(':')[1]}", f"{e[1]} ran on model {nm!r} during a call whose usable set is "
                                   f"{sorted(allowed)} ({desc})", case)
                     break
         if expect == "open":
@@ -122,15 +124,15 @@ class Mon:
             return o
         if expect == "ok":
             if not o.ok:
-                ctx.violation(f"allowed-name-rejected:{desc['op']}:{o.etype}", f"{desc} failed although every name is usable: {o.exc!r}", case)
+                ctx.violation(f"{pfx}allowed-name-rejected:{desc['op']}:{o.etype}", f"{desc} failed although every name is usable: {o.exc!r}", case)
         elif expect == "unsupported":
             if o.ok:
-                ctx.violation(f"unallowed-name-used:{desc['op']}", f"{desc} succeeded although {desc.get('bad')!r} is not usable", case)
+                ctx.violation(f"{pfx}unallowed-name-used:{desc['op']}", f"{desc} succeeded although {desc.get('bad')!r} is not usable", case)
             elif o.etype != "UnsupportedAlgorithmError":
-                ctx.violation(f"unallowed-name-wrong-error:{desc['op']}:{o.key}", f"{desc}: unusable well-typed name {desc.get('bad')!r} reported as {o.exc!r}", case)
+                ctx.violation(f"{pfx}unallowed-name-wrong-error:{desc['op']}:{o.key}", f"{desc}: unusable well-typed name {desc.get('bad')!r} reported as {o.exc!r}", case)
         elif expect == "fail":
             if o.ok:
-                ctx.violation(f"{'none-verified' if none_verify else 'bad-name-used'}:{desc['op']}", f"{desc} succeeded", case)
+                ctx.violation(f"{pfx}{'none-verified' if none_verify else 'bad-name-used'}:{desc['op']}", f"{desc} succeeded", case)
         return o
 
 
@@ -157,6 +159,8 @@ def jws_ops(mon: Mon, name, allow, mode, rng, forms=None):
         if allow is None:
             return {"registry": None}
         cls = cls or j.jws.JWSRegistry
+        if mode == "list+registry":
+            return {"algorithms": copy.deepcopy(allow), "registry": cls()}
         return {"registry": cls(algorithms=copy.deepcopy(allow))}
 
     if not isstr:
@@ -241,6 +245,8 @@ def jwe_ops(mon: Mon, alg, enc, zipv, allow, mode, rng):
             return {"algorithms": copy.deepcopy(allow)}
         if allow is None:
             return {"registry": None}
+        if mode == "list+registry":
+            return {"algorithms": copy.deepcopy(allow), "registry": j.jwe.JWERegistry()}
         return {"registry": j.jwe.JWERegistry(algorithms=copy.deepcopy(allow))}
 
     confounded = allstr and alg in g.ALGS and enc in g.ENCS and not g.combo_ok(alg, enc)
@@ -266,7 +272,7 @@ def jwe_ops(mon: Mon, alg, enc, zipv, allow, mode, rng):
         return j.jwe.encrypt_json(obj, None, sender_key=jsend, **kw())
     mon.run({**d0, "op": "encrypt", "form": "flattened"}, U, exp, lambda: enc_json("FlattenedJSONEncryption"))
     mon.run({**d0, "op": "encrypt", "form": "general"}, U, exp, lambda: enc_json("GeneralJSONEncryption"))
-    if mode == "registry" and allow is not None and not sk:
+    if mode in ("registry", "list+registry") and allow is not None and not sk:
         mon.run({**d0, "op": "jwt.encode", "form": "jwe"}, U, exp, lambda: j.jwt.encode(copy.deepcopy(hdr), {"sub": "x"}, jpub, **kw()))
     # consume side
     if real_names:
@@ -284,7 +290,7 @@ def jwe_ops(mon: Mon, alg, enc, zipv, allow, mode, rng):
     jsp = j.key(gen.public_jwk(sk)) if sk else None
     mon.run({**d0, "op": "decrypt", "form": "compact"}, U, exp, lambda: j.jwe.decrypt_compact(t_c, jpriv, sender_key=jsp, **kw()))
     mon.run({**d0, "op": "decrypt", "form": "flattened"}, U, exp, lambda: j.jwe.decrypt_json(copy.deepcopy(t_f), jpriv, sender_key=jsp, **kw()))
-    if mode == "registry" and allow is not None and not sk:
+    if mode in ("registry", "list+registry") and allow is not None and not sk:
         mon.run({**d0, "op": "jwt.decode", "form": "jwe"}, U, exp, lambda: j.jwt.decode(t_c, jpriv, **kw()))
 
 
@@ -308,13 +314,13 @@ def history(mon: Mon, rng, length):
             fp0 = fp1
         if rng.random() < 0.5:
             name = rng.choice(JWS_REG + UNKNOWN[:4] + JWS_REC * 2)
-            jws_ops(mon, name, copy.deepcopy(rng.choice(ALLOW_LISTS_JWS)), rng.choice(["algorithms", "registry"]), rng)
+            jws_ops(mon, name, copy.deepcopy(rng.choice(ALLOW_LISTS_JWS)), rng.choice(["algorithms", "registry", "list+registry"]), rng)
             i += 14
         else:
             alg = rng.choice(g.ALGS + ["foo"])
             enc = rng.choice(g.ENCS + ["A128GCMX"])
             z = rng.choice([None, None, "DEF", "GZIP"])
-            jwe_ops(mon, alg, enc, z, copy.deepcopy(rng.choice(ALLOW_LISTS_JWE)), rng.choice(["algorithms", "registry"]), rng)
+            jwe_ops(mon, alg, enc, z, copy.deepcopy(rng.choice(ALLOW_LISTS_JWE)), rng.choice(["algorithms", "registry", "list+registry"]), rng)
             i += 6
         fp = FP.registries()
         ctx.count("fingerprints_taken")
@@ -333,7 +339,7 @@ def run_shard(ctx):
         k = 0
         for name in names:
             for allow in ALLOW_LISTS_JWS:
-                for mode in ("algorithms", "registry"):
+                for mode in ("algorithms", "registry", "list+registry"):
                     k += 1
                     if k % ctx.nshards != ctx.shard:
                         continue
@@ -348,17 +354,17 @@ def run_shard(ctx):
                 for enc in (["A128GCM", "A256CBC-HS512"] if ctx.tier == "quick" else g.ENCS):
                     k += 1
                     if k % ctx.nshards == ctx.shard:
-                        jwe_ops(mon, copy.deepcopy(alg), enc, rng.choice([None, None, "DEF"]), copy.deepcopy(allow), rng.choice(["algorithms", "registry"]), rng)
+                        jwe_ops(mon, copy.deepcopy(alg), enc, rng.choice([None, None, "DEF"]), copy.deepcopy(allow), rng.choice(["algorithms", "registry", "list+registry"]), rng)
         for enc in encs:
             for allow in ALLOW_LISTS_JWE:
                 k += 1
                 if k % ctx.nshards == ctx.shard:
-                    jwe_ops(mon, rng.choice(["A128KW", "dir", "ECDH-ES"]), copy.deepcopy(enc), None, copy.deepcopy(allow), rng.choice(["algorithms", "registry"]), rng)
+                    jwe_ops(mon, rng.choice(["A128KW", "dir", "ECDH-ES"]), copy.deepcopy(enc), None, copy.deepcopy(allow), rng.choice(["algorithms", "registry", "list+registry"]), rng)
         for z in ("DEF", "GZIP", "def", "", 5, None, ["DEF"], True):
             for allow in ALLOW_LISTS_JWE:
                 k += 1
                 if k % ctx.nshards == ctx.shard and not (z is None):
-                    jwe_ops(mon, "A128KW", "A128GCM", copy.deepcopy(z), copy.deepcopy(allow), rng.choice(["algorithms", "registry"]), rng)
+                    jwe_ops(mon, "A128KW", "A128GCM", copy.deepcopy(z), copy.deepcopy(allow), rng.choice(["algorithms", "registry", "list+registry"]), rng)
         # histories
         history(mon, rng, 400 if ctx.tier == "quick" else 2000)
         if ctx.tier == "thorough":
